@@ -44,21 +44,31 @@ def asTok (j : Json) : R (Option Tok) := do
 def errJ : C01.Err → Json
   | .unsupported => "Unsupported" | .valueError => "ValueError" | .geom e => gerrJ e
 
-/-- op "font": in = {tol, glyphs, skip, cff, auto, infoD, infoN}; obs = {err} | {glyphs: [[name, ops, advance, program]...]}.
+/-- op "font": in = {tol, glyphs, skiparg, libskip, pre, cff, auto, infoD, infoN}; obs = {err} | {glyphs: [[name, ops, advance, program]...]}.
     The model's entry per glyph: [name, outline, advance, raw charstring program (`cffProgram`)]; `dec` = what the Lean
     Type 2 interpreter (`exec`) makes of each OBSERVED program: [name, outline | null, advance recovered from the width operand | null] -/
 def font (req : Json) : R Reply := do
   let i ← field req "in"
   let tol ← asRat (← field i "tol")
   let gs ← asGlyphSet (← field i "glyphs")
-  let skip ← asList asStr (← field i "skip")
+  -- the caller's `skipExportGlyphs=` argument (null = not passed), the UFO's lib key, the custom restricted pre-filter
+  let skiparg ← asOpt (asList asStr) (← field i "skiparg")
+  let libskip ← asList asStr (← field i "libskip")
+  let skip := effectiveSkip skiparg libskip
+  let pf : Option Sel ← asOpt (fun j => do
+    match ← asArr j with
+    | [k, l] => match ← asStr k with
+      | "include" => return Sel.incl (← asList asStr l)
+      | "exclude" => return Sel.excl (← asList asStr l)
+      | s => throw s!"pre {s}"
+    | _ => throw "pre") (← field i "pre")
   let ver : C12.Ver := if (← asInt (← field i "cff")) == 2 then .v2 else .v1
   let auto ← asPair asInt asInt (← field i "auto")
   let dn := C12.defNom (← asOpt asRat (← field i "infoD")) (← asOpt asRat (← field i "infoN")) auto
   let obs ← field req "obs"
   let oerr ← asOpt asStr (← field obs "err")
   -- model
-  match preprocess skip gs with
+  match preprocessF pf skip gs with
   | .error e => return { model := Json.mkObj [("err", errJ e)], holds := oerr.isSome }
   | .ok pre =>
   let adv := pre.map (fun e => advance e.2)
@@ -96,14 +106,16 @@ def font (req : Json) : R Reply := do
           dec := dec ++ [Json.arr #[Json.str n, (match run with | some r => listJ opJ r.1 | none => Json.null), optJ ratJ wdec]]
           -- ... is an advance of the font too: it must be the rounded source width like hmtx's
           match wdec, gs.get? n with
-          | some w, some g => if w != (otRound g.width : Q) && !skip.contains n then bad := bad ++ [n ++ ":charstring-width"]
+          | some w, some g => if w != (otRound g.width : Q) && isExported skiparg libskip n then bad := bad ++ [n ++ ":charstring-width"]
           | _, _ => pure ()
           match gs.get? n with
-          | some g => if skip.contains n || !(holdsOutline skip.isEmpty tol gs g ops && holdsAdvance g a) then bad := bad ++ [n]
+          | some g => if !isExported skiparg libskip n || !(holdsOutline skip.isEmpty tol gs g ops && holdsAdvance g a) then bad := bad ++ [n]
           | none => if n != ".notdef" then bad := bad ++ [n]
         | _ => throw "glyph entry"
       let names := og.filterMap (fun o => match o.getArr? with | .ok a => (a[0]?.bind (fun j => j.getStr?.toOption)) | _ => none)
-      let missing := gs.names.filter (fun n => !names.contains n && !skip.contains n)
+      -- "every exported glyph": exported = not named by the argument if one was passed (also an empty one), else not by the lib key
+      let missing := if holdsExported skiparg libskip gs.names names then []
+        else (gs.names.filter (fun n => names.contains n != isExported skiparg libskip n)).map (· ++ ":exported") ++ ["glyph-set"]
       let model := Json.mkObj [("err", Json.null), ("glyphs", glyphsJ), ("dec", Json.arr dec.toArray),
         ("dn", Json.arr #[intJ dn.1, intJ dn.2])]
       return { model, holds := bad.isEmpty && missing.isEmpty, info := strsJ (bad ++ missing),
